@@ -1,7 +1,7 @@
 """C08 - restricted reads equal full read + subset, for VCF and PGEN alike.
 
 Relations
-  read   : one content materialised as .vcf.gz+tbi (pysam) and .pgen/.pvar/.psam
+  read   : one content materialised as .vcf.gz+tbi or .bcf+csi (pysam) and .pgen/.pvar/.psam
            (pgenlib, plain text), one query (region / samples / ids / max_variants /
            chunk size); haptools' read(), read(restricted) and __iter__(restricted)
            observed for both formats
@@ -34,7 +34,8 @@ RULE = (
 TRUSTED = [
     "htslib region queries return, in file order, the records whose [pos, pos+len(REF)-1] overlaps the region (model "
     "in_region_vcf); pgenlib returns stored calls by variant index (C07 contracts); both exercised on every run",
-    "the test files are written with pysam / pgenlib / plain text by the harness, not with haptools",
+    "the test files (.vcf.gz+.tbi or .bcf+.csi, .pgen/.pvar/.psam) are written with pysam / pgenlib / plain text by the "
+    "harness, not with haptools",
     "harness transposes haptools' sample-major array to variant-major rows; strings are interned per case",
 ]
 ASSUMPTIONS = [
@@ -142,6 +143,7 @@ def gen_query(rng, c):
         q["max"] = int(rng.integers(0, p + 3))
     if rng.random() < 0.7:
         q["chunk"] = int(rng.integers(1, p + 2))
+    q["vfmt"] = "bcf" if rng.random() < 0.3 else "vcf.gz"     # .bcf + .csi or .vcf.gz + .tbi
     return q
 
 
@@ -165,14 +167,14 @@ def write_vcf(c, path):
             h.contigs.add(v[1])
     h.add_meta("FORMAT", items=[("ID", "GT"), ("Number", 1), ("Type", "String"), ("Description", "Genotype")])
     h.add_samples(c["samples"])
-    with pysam.VariantFile(path, "w", header=h) as vf:
+    with pysam.VariantFile(path, "wb" if path.endswith(".bcf") else "wz", header=h) as vf:
         for v, row in zip(c["variants"], c["rows"]):
             rec = vf.new_record(contig=v[1], start=v[2] - 1, stop=v[2] - 1 + len(v[3][0]), alleles=tuple(v[3]), id=v[0])
             for s, call in zip(c["samples"], row):
                 rec.samples[s]["GT"] = tuple(None if x == 255 else x for x in call[:2])
                 rec.samples[s].phased = bool(call[2])
             vf.write(rec)
-    pysam.tabix_index(path, preset="vcf", force=True)
+    pysam.tabix_index(path, preset="bcf" if path.endswith(".bcf") else "vcf", force=True)
 
 
 def write_pgen(c, path):
@@ -282,6 +284,7 @@ def selects(c, q):
         out.append("max=" + ("0" if q["max"] == 0 else "<matches" if q["max"] < len(keep) else ">=matches"))
     if q["chunk"] is not None:
         out.append("chunk=" + ("1" if q["chunk"] == 1 else ">p" if q["chunk"] > len(vs) else "mid"))
+    out.append("vfmt=" + q.get("vfmt", "vcf.gz"))
     if not vs:
         out.append("p=0")
     if not keep:
@@ -348,7 +351,7 @@ class Read(Relation):
         d = tempfile.mkdtemp(prefix="hv_c08_")
         try:
             c, q = inp["content"], inp["q"]
-            vp, pp = os.path.join(d, "x.vcf.gz"), os.path.join(d, "x.pgen")
+            vp, pp = os.path.join(d, "x." + q.get("vfmt", "vcf.gz")), os.path.join(d, "x.pgen")
             write_vcf(c, vp)
             write_pgen(c, pp)
             return {"vcf": observe(GenotypesVCF, vp, q, {}),
